@@ -1306,8 +1306,20 @@ impl<'a> Hist<'a> {
         }
         self.rep.distinct("C12", hash64(&[hash_str(kind), hash_str(name), expect.len() as u64, hash64(&expect.iter().map(|x| *x as u64).collect::<Vec<_>>())]));
         let anycfg = self.fns[0].cfg;
-        if got != expect.len() {
-            return Err(Viol { prop: "C12".into(), sig: format!("C12|L2|registry|{}|wrong-count|", kind), what: format!("invalidate by {} {:?} returned {}, {} used caches match ({:?})", kind, name, got, expect.len(), expect), detail: json!({"kind": kind, "name": name, "cfg0": cfg_json(&anycfg)}) });
+        // (a wrong count is reported after the caches were looked at: a request that reached a
+        // cache it does not concern is a C13 matter first)
+        let count_viol = if got != expect.len() {
+            Some(Viol { prop: "C12".into(), sig: format!("C12|L2|registry|{}|wrong-count|", kind), what: format!("invalidate by {} {:?} returned {}, {} used caches match ({:?})", kind, name, got, expect.len(), expect), detail: json!({"kind": kind, "name": name, "cfg0": cfg_json(&anycfg)}) })
+        } else {
+            None
+        };
+        if let Some(v) = &count_viol {
+            for fi in 0..self.fns.len() {
+                if self.fns[fi].shared() && !expect.contains(&self.fns[fi].d.fid) {
+                    self.filter_by_listing(fi, None, "group-nonmatching")?;
+                }
+            }
+            return Err(Viol { prop: v.prop.clone(), sig: v.sig.clone(), what: v.what.clone(), detail: v.detail.clone() });
         }
         for fi in 0..self.fns.len() {
             let fid = self.fns[fi].d.fid;
